@@ -1,6 +1,7 @@
 /-
 C16 — helper lemmas about the range loops (range-based `for` through the facade operators) and the
-hybrid index walk.  Core Lean only.
+hybrid index walk.  The loop lemmas hold for EVERY fuel that is at least the length of the range: the loops stop by
+themselves when the iterator reaches `end()`, the fuel never cuts them short.  Core Lean only.
 -/
 import DuneVerif.Proofs.C16Basic
 
@@ -34,8 +35,10 @@ theorem mem_intRange (lo hi x : Int) : x ∈ intRange lo hi ↔ lo ≤ x ∧ x <
   · intro ⟨h1, h2⟩
     exact ⟨(x - lo).toNat, by omega, by omega⟩
 
-/-- the IntegralRange loop started at value `v` with `fuel = hi - v` produces `v … hi-1` -/
-theorem enumLoop_eq (hi : Int) : ∀ (fuel : Nat) (v : Int), v ≤ hi → fuel = (hi - v).toNat →
+theorem length_intRange (lo hi : Int) : (intRange lo hi).length = (hi - lo).toNat := by simp [intRange]
+
+/-- the IntegralRange loop started at value `v` with any `fuel ≥ hi - v` produces `v … hi-1` -/
+theorem enumLoop_eq (hi : Int) : ∀ (fuel : Nat) (v : Int), v ≤ hi → (hi - v).toNat ≤ fuel →
     IntegralRange.enumLoop fuel ⟨v⟩ ⟨hi⟩ = intRange v hi := by
   intro fuel
   induction fuel with
@@ -44,13 +47,16 @@ theorem enumLoop_eq (hi : Int) : ∀ (fuel : Nat) (v : Int), v ≤ hi → fuel =
     rw [intRange_nil v hi (by omega)]; rfl
   | succ m ih =>
     intro v hv hf
-    have hlt : v < hi := by omega
-    have hne : IR.ne ⟨v⟩ ⟨hi⟩ = true := by simp [IR.ne]; omega
-    rw [IntegralRange.enumLoop, hne, intRange_cons v hi hlt]
-    simp only [if_true, IR.deref, IR.inc]
-    rw [ih (v + 1) (by omega) (by omega)]
+    by_cases hlt : v < hi
+    · have hne : IR.ne ⟨v⟩ ⟨hi⟩ = true := by simp [IR.ne_spec]; omega
+      rw [IntegralRange.enumLoop, hne, intRange_cons v hi hlt]
+      simp only [if_true, IR.deref_spec, IR.inc_spec]
+      rw [ih (v + 1) (by omega) (by omega)]
+    · have hne : IR.ne ⟨v⟩ ⟨hi⟩ = false := by simp [IR.ne_spec]; omega
+      rw [IntegralRange.enumLoop, hne, intRange_nil v hi (by omega)]
+      simp
 
-theorem transformLoopIR_eq (f : Int → Int) (hi : Int) : ∀ (fuel : Nat) (v : Int), v ≤ hi → fuel = (hi - v).toNat →
+theorem transformLoopIR_eq (f : Int → Int) (hi : Int) : ∀ (fuel : Nat) (v : Int), v ≤ hi → (hi - v).toNat ≤ fuel →
     transformLoopIR f fuel ⟨v⟩ ⟨hi⟩ = ((intRange v hi).map f, intRange v hi) := by
   intro fuel
   induction fuel with
@@ -59,14 +65,18 @@ theorem transformLoopIR_eq (f : Int → Int) (hi : Int) : ∀ (fuel : Nat) (v : 
     rw [intRange_nil v hi (by omega)]; rfl
   | succ m ih =>
     intro v hv hf
-    have hlt : v < hi := by omega
-    have hne : NewF.ne irBase (⟨v⟩ : IR) ⟨hi⟩ = true := by
-      simp [NewF.ne, NewF.eq, irBase, IR.eq]; omega
-    rw [transformLoopIR, hne, intRange_cons v hi hlt]
-    simp only [if_true]
-    have hinc : NewF.preInc irBase (⟨v⟩ : IR) = ⟨v + 1⟩ := rfl
-    rw [hinc, ih (v + 1) (by omega) (by omega)]
-    rfl
+    by_cases hlt : v < hi
+    · have hne : NewF.ne irBase (⟨v⟩ : IR) ⟨hi⟩ = true := by
+        simp [NewF.ne_spec, NewF.eq, irBase, IR.eq_spec]; omega
+      rw [transformLoopIR, hne, intRange_cons v hi hlt]
+      simp only [if_true]
+      have hinc : NewF.preInc irBase (⟨v⟩ : IR) = ⟨v + 1⟩ := rfl
+      rw [hinc, ih (v + 1) (by omega) (by omega)]
+      rfl
+    · have hne : NewF.ne irBase (⟨v⟩ : IR) ⟨hi⟩ = false := by
+        simp [NewF.ne_spec, NewF.eq, irBase, IR.eq_spec]; omega
+      rw [transformLoopIR, hne, intRange_nil v hi (by omega)]
+      simp
 
 /-! ### loops over a container -/
 
@@ -78,47 +88,68 @@ theorem drop_take_succ (c : List Int) (p m : Nat) (h : p < c.length) :
     (c.drop p).take (m + 1) = c[p] :: (c.drop (p + 1)).take m := by
   rw [List.drop_eq_getElem_cons h]; rfl
 
-/-- range-for through a legacy facade iterator from position `p` to position `e` visits `c[p], …, c[e-1]` -/
-theorem legacyLoop_eq (conv : Bool) (c : List Int) (k e : Nat) (he : e ≤ c.length) :
-    ∀ (fuel p : Nat), p ≤ e → fuel = e - p →
-    legacyLoop conv c fuel ⟨k, p⟩ ⟨k, e⟩ = (c.drop p).take (e - p) := by
+/-- range-for through a legacy facade iterator (any lawful core `k`, any of the `!=` operators `ne` that decide
+inequality of positions) from position `p` to position `e` visits `c[p], …, c[e-1]`, for every sufficient fuel -/
+theorem legacyLoop_eq (k : Core It) (ne : It → It → Bool)
+    (hinc : ∀ i : It, Legacy.preInc k i = ⟨i.cont, i.pos + 1⟩)
+    (hne : ∀ (q : Nat) (p e : Int), ne ⟨q, p⟩ ⟨q, e⟩ = decide (p ≠ e))
+    (c : List Int) (q e : Nat) (he : e ≤ c.length) :
+    ∀ (fuel p : Nat), p ≤ e → e - p ≤ fuel →
+    legacyLoop k ne c fuel ⟨q, p⟩ ⟨q, e⟩ = (c.drop p).take (e - p) := by
   intro fuel
   induction fuel with
-  | zero => intro p hp hf; rw [← hf]; simp [legacyLoop]
+  | zero => intro p hp hf; have : e - p = 0 := by omega
+            rw [this]; simp [legacyLoop]
   | succ m ih =>
     intro p hp hf
-    have hlt : p < e := by omega
-    have hne : Legacy.ne posCore conv (⟨k, p⟩ : It) ⟨k, e⟩ = true := by
-      cases conv <;> simp [Legacy.ne, posCore] <;> omega
-    have hd : dereference c ⟨k, p⟩ = some c[p] := by
-      simp only [dereference, getAt_nat]; exact List.getElem?_eq_getElem (by omega)
-    have hinc : Legacy.preInc posCore (⟨k, p⟩ : It) = ⟨k, ((p + 1 : Nat) : Int)⟩ := by
-      simp [Legacy.preInc, posCore]
-    rw [legacyLoop, hne, hd, hinc]
-    simp only [if_true]
-    rw [ih (p + 1) (by omega) (by omega), ← hf, drop_take_succ c p m (by omega)]
-    congr 2; omega
+    by_cases hlt : p < e
+    · have hn : ne (⟨q, p⟩ : It) ⟨q, e⟩ = true := by rw [hne]; simp; omega
+      have hd : getAt c ((p : Nat) : Int) = some c[p] := by
+        rw [getAt_nat]; exact List.getElem?_eq_getElem (by omega)
+      have hi : Legacy.preInc k (⟨q, p⟩ : It) = ⟨q, ((p + 1 : Nat) : Int)⟩ := by
+        rw [hinc]; simp
+      rw [legacyLoop, hn]
+      simp only [if_true]
+      rw [hd, hi]
+      simp only []
+      rw [ih (p + 1) (by omega) (by omega)]
+      have e1 : e - p = (e - (p + 1)) + 1 := by omega
+      rw [e1, drop_take_succ c p _ (by omega)]
+    · have hpe : p = e := by omega
+      have hn : ne (⟨q, p⟩ : It) ⟨q, e⟩ = false := by rw [hne]; simp; omega
+      rw [legacyLoop, hn]
+      have : e - p = 0 := by omega
+      rw [this]; simp
 
 theorem transformLoop_eq (f : Int → Int) (c : List Int) (k e : Nat) (he : e ≤ c.length) :
-    ∀ (fuel p : Nat), p ≤ e → fuel = e - p →
+    ∀ (fuel p : Nat), p ≤ e → e - p ≤ fuel →
     transformLoop f c fuel ⟨k, p⟩ ⟨k, e⟩ = (((c.drop p).take (e - p)).map f, (c.drop p).take (e - p)) := by
   intro fuel
   induction fuel with
-  | zero => intro p hp hf; rw [← hf]; simp [transformLoop]
+  | zero => intro p hp hf; have : e - p = 0 := by omega
+            rw [this]; simp [transformLoop]
   | succ m ih =>
     intro p hp hf
-    have hlt : p < e := by omega
-    have hne : NewF.ne stdBase (⟨k, p⟩ : It) ⟨k, e⟩ = true := by
-      simp [NewF.ne, NewF.eq, stdBase]; omega
-    have hd : dereference c ⟨k, p⟩ = some c[p] := by
-      simp only [dereference, getAt_nat]; exact List.getElem?_eq_getElem (by omega)
-    have hinc : NewF.preInc stdBase (⟨k, p⟩ : It) = ⟨k, ((p + 1 : Nat) : Int)⟩ := by
-      simp [NewF.preInc, stdBase]
-    rw [transformLoop, hne, hd, hinc]
-    simp only [if_true]
-    rw [ih (p + 1) (by omega) (by omega), ← hf, drop_take_succ c p m (by omega)]
-    have e1 : e - (p + 1) = m := by omega
-    simp [e1]
+    by_cases hlt : p < e
+    · have hne : NewF.ne stdBase (⟨k, p⟩ : It) ⟨k, e⟩ = true := by
+        simp [NewF.ne_spec, NewF.eq, stdBase]; omega
+      have hd : getAt c ((p : Nat) : Int) = some c[p] := by
+        rw [getAt_nat]; exact List.getElem?_eq_getElem (by omega)
+      have hinc : NewF.preInc stdBase (⟨k, p⟩ : It) = ⟨k, ((p + 1 : Nat) : Int)⟩ := by
+        simp [NewF.preInc, stdBase]
+      rw [transformLoop, hne]
+      simp only [if_true]
+      rw [hd, hinc]
+      simp only []
+      rw [ih (p + 1) (by omega) (by omega)]
+      have e1 : e - p = (e - (p + 1)) + 1 := by omega
+      rw [e1, drop_take_succ c p _ (by omega)]
+      simp
+    · have hne : NewF.ne stdBase (⟨k, p⟩ : It) ⟨k, e⟩ = false := by
+        simp [NewF.ne_spec, NewF.eq, stdBase]; omega
+      rw [transformLoop, hne]
+      have : e - p = 0 := by omega
+      rw [this]; simp
 
 /-- entries paired with their positions, starting at position `p` -/
 def withIndexFrom : Nat → List Int → List (Int × Int)
@@ -126,25 +157,34 @@ def withIndexFrom : Nat → List Int → List (Int × Int)
   | p, x :: xs => (x, (p : Int)) :: withIndexFrom (p + 1) xs
 
 theorem sparseLoop_eq (c : List Int) (k e : Nat) (he : e ≤ c.length) :
-    ∀ (fuel p : Nat), p ≤ e → fuel = e - p →
+    ∀ (fuel p : Nat), p ≤ e → e - p ≤ fuel →
     sparseLoop c fuel ⟨k, p⟩ ⟨k, e⟩ = withIndexFrom p ((c.drop p).take (e - p)) := by
   intro fuel
   induction fuel with
-  | zero => intro p hp hf; rw [← hf]; simp [sparseLoop, withIndexFrom]
+  | zero => intro p hp hf; have : e - p = 0 := by omega
+            rw [this]; simp [sparseLoop, withIndexFrom]
   | succ m ih =>
     intro p hp hf
-    have hlt : p < e := by omega
-    have hne : NewF.ne denseBase (⟨k, p⟩ : It) ⟨k, e⟩ = true := by
-      simp [NewF.ne, NewF.eq, denseBase, Legacy.eq, posCore]; omega
-    have hd : dereference c ⟨k, p⟩ = some c[p] := by
-      simp only [dereference, getAt_nat]; exact List.getElem?_eq_getElem (by omega)
-    have hinc : NewF.preInc denseBase (⟨k, p⟩ : It) = ⟨k, ((p + 1 : Nat) : Int)⟩ := by
-      simp [NewF.preInc, denseBase, Legacy.preInc, posCore]
-    rw [sparseLoop, hne, hd, hinc]
-    simp only [if_true]
-    rw [ih (p + 1) (by omega) (by omega), ← hf, drop_take_succ c p m (by omega)]
-    have e1 : e - (p + 1) = m := by omega
-    simp [e1, withIndexFrom]
+    by_cases hlt : p < e
+    · have hne : NewF.ne denseBase (⟨k, p⟩ : It) ⟨k, e⟩ = true := by
+        simp [NewF.ne_spec, NewF.eq, denseBase, Legacy.eq_spec, posCore_equals]; omega
+      have hd : dereference c ⟨k, p⟩ = some c[p] := by
+        simp only [dereference_spec, getAt_nat]; exact List.getElem?_eq_getElem (by omega)
+      have hinc : NewF.preInc denseBase (⟨k, p⟩ : It) = ⟨k, ((p + 1 : Nat) : Int)⟩ := by
+        simp [NewF.preInc, denseBase, Legacy.preInc, posCore_increment]
+      rw [sparseLoop, hne]
+      simp only [if_true]
+      rw [hd, hinc]
+      simp only []
+      rw [ih (p + 1) (by omega) (by omega)]
+      have e1 : e - p = (e - (p + 1)) + 1 := by omega
+      rw [e1, drop_take_succ c p _ (by omega)]
+      simp [withIndexFrom]
+    · have hne : NewF.ne denseBase (⟨k, p⟩ : It) ⟨k, e⟩ = false := by
+        simp [NewF.ne_spec, NewF.eq, denseBase, Legacy.eq_spec, posCore_equals]; omega
+      rw [sparseLoop, hne]
+      have : e - p = 0 := by omega
+      rw [this]; simp [withIndexFrom]
 
 /-! ### hybrid index walk -/
 
@@ -170,5 +210,17 @@ theorem forEachStatic_cons {σ : Type} (x : Int) (xs : List Int) (f : σ → Int
   rw [List.length_cons, List.range_succ_eq_map]
   simp only [Hybrid.forEachIndex, Hybrid.elementAtStatic]
   exact forEachIndex_cons_succ x xs f _ _
+
+theorem forEachDynamic_eq_foldl {σ : Type} (c : List Int) (f : σ → Int → σ) (s : σ) :
+    Hybrid.forEachDynamic c f s = c.foldl f s := by
+  induction c generalizing s with
+  | nil => rfl
+  | cons x xs ih => exact ih (f s x)
+
+/-- the sequence a static range converts to is `from … to-1` -/
+theorem toSequence_eq (r : IntegralRange) : SR.toSequence r = intRange r.lo r.hi := by
+  unfold SR.toSequence intRange
+  apply List.map_congr_left
+  intro a _; omega
 
 end DV.C16
